@@ -45,6 +45,10 @@ def step (simd : Bool) (_ : Unit) (ws : List String) : Unit × String :=
   | ["madd", a, b, c] => out do pure (tokOfF32 (madd (← f a) (← f b) (← f c)))
   | ["lerp", t, a, b] => out do pure (tokOfF32 (lerp (← f t) (← f a) (← f b)))
   | ["divru32", a, b] => out do pure (toString (divRoundUp32 (← intOfTok a) (← intOfTok b)))
+  | ["divru8", a, b] => out do pure (toString (divRoundUp (← intOfTok a) (← intOfTok b)))    -- 0 <= a, 0 < b <= 255: exact in int
+  | ["divru16", a, b] => out do pure (toString (divRoundUp (← intOfTok a) (← intOfTok b)))
+  | ["divrus8", a, b] => out do pure (toString (divRoundUp (← intOfTok a) (← intOfTok b)))
+  | ["divrus16", a, b] => out do pure (toString (divRoundUp (← intOfTok a) (← intOfTok b)))
   | ["divru64", a, b] => out do pure (toString (divRoundUp (← intOfTok a) (← intOfTok b)))
   | ["srgb", x] => out do pure (tokOfF32 (linear_to_srgb (← f x)))
   | ["cvt", x] => out do pure (toString (cvt_uint32 rnd32 (← f x)))
